@@ -59,10 +59,14 @@ def dPdx(E, M, self):
     F2 = (sigt * P + sigs * E + siga * T4) / sigt
     Meq = numpy.where(M > 1, M0, self.M1)
     Ereq = numpy.where(M > 1, self.Er0, self.Er1)
+    # the end states are in equilibrium, where every limiter reduces to Eddington
+    Lambda, R = self.Lambda, self.R
+    self.Lambda, self.R = 1. / 3., 0.
     Em0 = mat_total_energy(Ereq, Meq, self)
     F20 = rad_flux2(Ereq, Meq, self)
     # beta0 defined as M0 / rho1 / C0 causes Srp(Pr1, M1, self) != 0
     beta0 = mat_beta(Ereq, Meq, self)
+    self.Lambda, self.R = Lambda, R
     return sigt / P0 * (beta * (Em + P0 * F2) - beta0 * (Em0 + P0 * F20))
 
 def dEdx(E, M, self):
@@ -89,10 +93,14 @@ def dEdx(E, M, self):
     F2 = (sigt * P + sigs * E + siga * T4) / sigt
     Meq = numpy.where(M > 1, M0, self.M1)
     Ereq = numpy.where(M > 1, self.Er0, self.Er1)
+    # the end states are in equilibrium, where every limiter reduces to Eddington
+    Lambda, R = self.Lambda, self.R
+    self.Lambda, self.R = 1. / 3., 0.
     Em0 = mat_total_energy(Ereq, Meq, self)
     F20 = rad_flux2(Ereq, Meq, self)
     # beta0 defined as M0 / rho1 / C0 causes Srp(Pr1, M1, self) != 0
     beta0 = mat_beta(Ereq, Meq, self)
+    self.Lambda, self.R = Lambda, R
     val = sigt / P0 * (beta * (Em + P0 * F2) - beta0 * (Em0 + P0 * F20))
     if (self.FLD_type == 'LP'):
 ### R is "positive" for Wilson's sum theory and Larsen's sqrt limiter,
